@@ -182,6 +182,110 @@ def constrain_instructions_body(n, limit_type):
     return body
 
 
+def multi_year_body(n=2):
+    """A total-spend constraint applying in two years: every constrained year meets its own total and bounds"""
+
+    def body(env):
+        import scipy
+        import atomica.optimization as ao
+        import atomica.programs as ap
+        import atomica.utils as au
+
+        patches = shim.patches_for(ao, ap, au)
+        if env.symbolic:
+            patches = [p for p in patches if not (p[0] is ao.__dict__ and p[1] == "scipy")] + [(ao.__dict__, "scipy", _StubMinimize(env, n, scipy))]
+        years = [2020.0, 2022.0]
+        names = ["P%d" % i for i in range(n)]
+        with env.installed(patches):
+            spends = {y: [env.real("spend%d@%g" % (i, y), 0, VMAX) for i in range(n)] for y in years}
+            instr = ap.ProgramInstructions(start_year=2019.0, alloc={nm: au.TimeSeries(t=years, vals=[spends[y][i] for y in years]) for i, nm in enumerate(names)})
+            bounds = []
+            adjs = []
+            for i, nm in enumerate(names):
+                lo = env.real("lower%d" % i, 0, VMAX)
+                hi = env.real("upper%d" % i, 0, VMAX)
+                env.assume(env.b(lo <= hi), "lower <= upper")
+                adjs.append(ao.SpendingAdjustment(nm, years, "abs", lo, hi))
+                bounds.append((lo, hi))
+            tots = [env.real("total@%g" % y, 1e-3, VMAX) for y in years]
+            con = ao.TotalSpendConstraint(total_spend=tots, t=years)
+            opt = ao.Optimization(name="o", adjustments=adjs, measurables=[], constraints=[con])
+            try:
+                hc = con.get_hard_constraint(opt, instr)
+            except ao.UnresolvableConstraint:
+                return
+            prop = {y: [env.real("proposal%d@%g" % (i, y), 0, VMAX) for i in range(n)] for y in years}
+            for y in years:
+                for i, nm in enumerate(names):
+                    instr.alloc[nm].insert(y, prop[y][i])
+            try:
+                con.constrain_instructions(instr, hc, opt)
+            except (ao.FailedConstraint, AssertionError):
+                return
+            vals = {y: [instr.alloc[nm].get(y) for nm in names] for y in years}
+        for k, y in enumerate(years):
+            s = 0.0
+            for i in range(n):
+                s = s + vals[y][i]
+                env.claim("amount_within_bounds_%d@%g" % (i, y), env.ge(vals[y][i], bounds[i][0]) & env.le(vals[y][i], bounds[i][1]), key="instr_bounds[year %d]" % k)
+            d = s - tots[k]
+            env.claim("amounts_meet_total@%g" % y, env.le(d, 1e-8 + 1e-5 * tots[k], 0) & env.ge(d, -(1e-8 + 1e-5 * tots[k]), 0), key="instr_total[year %d]" % k)
+
+    return body
+
+
+def mixed_body():
+    """A package with an adjustable total (two members) next to a plain adjustment under a total-spend constraint: the package receives
+    the amount the constraint assigns to it and its members keep their shares"""
+
+    def body(env):
+        import scipy
+        import atomica.optimization as ao
+        import atomica.programs as ap
+        import atomica.utils as au
+
+        patches = shim.patches_for(ao, ap, au)
+        if env.symbolic:
+            patches = [p for p in patches if not (p[0] is ao.__dict__ and p[1] == "scipy")] + [(ao.__dict__, "scipy", _StubMinimize(env, 2, scipy))]
+        t = 2020.0
+        init = [10.0, 30.0]
+        with env.installed(patches):
+            pk = ao.SpendingPackageAdjustment("pkg", t, ["A", "B"], np.array(init), min_props=[0.1, 0.1], max_props=[0.9, 0.9], min_total_spend=5.0, max_total_spend=200.0)
+            lo = env.real("lowerC", 0, 100)
+            hi = env.real("upperC", 0, 300)
+            env.assume(env.b(lo <= hi), "lower <= upper")
+            plain = ao.SpendingAdjustment("C", t, "abs", lo, hi)
+            c0 = env.real("spendC", 0, 300)
+            instr = ap.ProgramInstructions(start_year=2019.0, alloc={"A": au.TimeSeries(t=[t], vals=[init[0]]), "B": au.TimeSeries(t=[t], vals=[init[1]]), "C": au.TimeSeries(t=[t], vals=[c0])})
+            tot = env.real("total_spend", 1.0, 400)
+            con = ao.TotalSpendConstraint(total_spend=tot, t=t)
+            opt = ao.Optimization(name="o", adjustments=[pk, plain], measurables=[], constraints=[con])
+            try:
+                hc = con.get_hard_constraint(opt, instr)
+            except ao.UnresolvableConstraint:
+                return
+            # proposal: member amounts and the plain program's amount
+            a1 = env.real("proposalA", 0.5, 150)
+            b1 = env.real("proposalB", 0.5, 150)
+            c1 = env.real("proposalC", 0, 300)
+            instr.alloc["A"].insert(t, a1)
+            instr.alloc["B"].insert(t, b1)
+            instr.alloc["C"].insert(t, c1)
+            try:
+                con.constrain_instructions(instr, hc, opt)
+            except (ao.FailedConstraint, AssertionError):
+                return
+            a2, b2, c2 = instr.alloc["A"].get(t), instr.alloc["B"].get(t), instr.alloc["C"].get(t)
+        d = a2 + b2 + c2 - tot
+        env.claim("amounts_meet_total", env.le(d, 1e-8 + 1e-5 * tot, 0) & env.ge(d, -(1e-8 + 1e-5 * tot), 0), key="mixed_total")
+        env.claim("package_total_within_its_limits", env.ge(a2 + b2, 5.0) & env.le(a2 + b2, 200.0), key="mixed_package_limits")
+        env.claim("plain_amount_within_bounds", env.ge(c2, lo) & env.le(c2, hi), key="mixed_bounds")
+        # rescaling the package total keeps each member's share of the package
+        env.claim("package_shares_kept", env.eq(a2 * (a1 + b1), a1 * (a2 + b2)) & env.eq(b2 * (a1 + b1), b1 * (a2 + b2)), key="mixed_shares")
+
+    return body
+
+
 def package_body(n, adjust_total):
     def body(env):
         import scipy
@@ -258,6 +362,8 @@ def specs(tier):
             for fac in (False, True):
                 out.append(("hard_constraint[n=2;%s;explicit=%d;factor=%d]" % (lt, et, fac), hard_constraint_body, dict(n=2, limit_type=lt, explicit_total=et, factor=fac), ("UnresolvableConstraint",)))
     out.append(("constrain_instructions[n=2;abs]", constrain_instructions_body, dict(n=2, limit_type="abs"), ("FailedConstraint", "AssertionError", "UnresolvableConstraint")))
+    out.append(("constrain_instructions[n=2;two constrained years]", multi_year_body, dict(n=2), ("FailedConstraint", "AssertionError", "UnresolvableConstraint")))
+    out.append(("constrain_instructions[package with adjustable total + plain program]", mixed_body, dict(), ("FailedConstraint", "AssertionError", "UnresolvableConstraint")))
     out.append(("package[n=2;fixed total]", package_body, dict(n=2, adjust_total=False), ("FailedConstraint", "AssertionError")))
     out.append(("package[n=2;adjustable total]", package_body, dict(n=2, adjust_total=True), ("FailedConstraint", "AssertionError")))
     out.append(("paired", paired_body, dict(), ()))
